@@ -14,6 +14,39 @@ GI = F + "IndexableFunction.__getitem__"
 FE = F + "FunctionEvaluator."
 
 
+def index_range(r: R, chk, qual: str, param_hint: str, want, rule="INDEX-RANGE"):
+    """the index validator is folded by the checker (tests, early returns, raises) for npts = 1..6, degree = 0..3 and every integer
+    index around the ends: an index is accepted — the validator returns — exactly when it is in `want(npts, degree)` (Python's
+    convention for the first index: -npts .. npts-1; 0 .. degree for the second).  A guard of a raise that the folder cannot
+    evaluate leaves the rule undecided."""
+    from .extra import UNK, fold_outcome
+
+    fi = r.prog.func(qual)
+    if not any(isinstance(x, ast.Raise) and raised_type(x) == "IndexError" for x in ast.walk(fi.node)):
+        chk.ob(rule, f"{qual} refuses an index outside the table with IndexError", False, loc=f"{fi.module}.py:{fi.node.lineno}",
+               detail=f"{qual}: no `raise IndexError` is left in the validator: an index outside the table builds an evaluator", func=qual, construct="validator never raises IndexError")
+        return
+    idx = next((p for p in fi.params if p not in ("self", "cls")), param_hint)
+    bad = None
+    undecided = False
+    for npts in range(1, 7):
+        for degree in range(0, min(npts, 4)):
+            for i in range(-npts - 2, npts + 3):
+                out = fold_outcome(fi.node.body, {idx: i, ".npts": npts, ".degree": degree}, degree, stop_at_work=False)
+                if out is UNK:
+                    undecided = True
+                    continue
+                accepted = out[0] in ("return", "end")
+                if accepted != (i in want(npts, degree)) and bad is None:
+                    bad = (npts, degree, i, accepted)
+    if undecided and bad is None:
+        chk.note(f"{rule}: {qual}: a guard of `raise IndexError` could not be folded: not decided")
+        return
+    chk.ob(rule, f"{qual}: exactly the indices of the table are accepted (npts = 1..6)", bad is None, loc=f"{fi.module}.py:{fi.node.lineno}",
+           detail="" if bad is None else f"{qual}: with npts = {bad[0]}, degree = {bad[1]} the index {bad[2]} is {'accepted' if bad[3] else 'refused'}, but the rows of the table are {min(want(bad[0], bad[1]))} .. {max(want(bad[0], bad[1]))}: " + ("an index outside the table builds an evaluator" if bad[3] else "a valid (negative / last) index cannot select its row"),
+           func=qual, construct="index range of the validator")
+
+
 def run(m, chk):
     r = R(m, chk)
     chk.explanation = (
@@ -21,7 +54,7 @@ def run(m, chk):
         "(the second index of the evaluator built in eval depends on self.degree); the evaluator's result depends on nodes, knot vector, both indices and weights; span(nodes) precedes the table lookup so outside nodes raise "
         "ValueError which escapes. The values (non-negativity, support, partition of unity) and negative-index / slice semantics are not decided."
     )
-    chk.decides = ["GATE(index validators)", "DEP-MAY", "GATE-SPAN", "X-ESCAPE", "PURE", "FRESH-EVALUATOR (f(u) applies an evaluator built in the same call, never a kept one)"]
+    chk.decides = ["INDEX-RANGE (the validators accept exactly -npts .. npts-1 and 0 .. degree)", "GATE(index validators)", "DEP-MAY", "GATE-SPAN", "X-ESCAPE", "PURE", "FRESH-EVALUATOR (f(u) applies an evaluator built in the same call, never a kept one)"]
     chk.not_decided = ["Function(U)[i, j](u) = N_i,j(u) as values", "partition of unity", "negative indices / slices select the right rows"]
     ctx = r.root(GI)
     build = [c for c in ctx.calls if any(f.qual == FE + "__init__" for f in c.callees)]
@@ -96,3 +129,5 @@ def run(m, chk):
     r.pure("PURE", q, ["self", "nodes"])
     r.pure("PURE", GI, ["self", "index"])
     r.pure("PURE", F + "BaseFunction.__eq__", ["self", "other"])
+    index_range(r, chk, F + "IndexableFunction.__valid_first_index", "index", lambda n, p: range(-n, n))
+    index_range(r, chk, F + "IndexableFunction.__valid_second_index", "index", lambda n, p: range(0, p + 1))
